@@ -82,6 +82,9 @@ type bctx struct {
 	calls   map[*ast.CallExpr]CallSite
 	finite  map[string][]int64 // atom -> finite value set
 	pfCache map[int][2][]LF
+	fdCache map[string][]int
+	pathSel map[string]*ast.SelectorExpr
+	addrTaken map[types.Object]bool
 	pfBusy  map[int]bool
 	assumeSucc *ast.CallExpr // while inferring success postconditions: this call is known to have succeeded
 }
@@ -109,10 +112,19 @@ func (e *boundsEngine) ctx(fc *FuncCtx) *bctx {
 		}
 		b.params[po] = i
 	}
+	b.addrTaken = map[types.Object]bool{}
 	for _, v := range fc.G.V {
 		if v.Node == nil {
 			continue
 		}
+		inspectNoLit(v.Node, func(n ast.Node) bool {
+			if ue, ok := n.(*ast.UnaryExpr); ok && ue.Op == token.AND {
+				if o := objOf(b.info, ue.X); o != nil {
+					b.addrTaken[o] = true
+				}
+			}
+			return true
+		})
 		for sel := range writeTargets(b.info, v.Node) {
 			b.fldAsg[exprStr(sel)] = true
 		}
@@ -218,6 +230,29 @@ func (b *bctx) stableDefs(defs []int, q, u int) bool {
 }
 
 func (b *bctx) fieldDefs(path string) []int {
+	if d, ok := b.fdCache[path]; ok {
+		return d
+	}
+	// the field object and its owner struct, for may-alias reasoning by type
+	var fobj *types.Var
+	var owner types.Type
+	if x, ok := b.pathSel[path]; ok {
+		if sel := b.info.Selections[x]; sel != nil && sel.Kind() == types.FieldVal {
+			fobj, _ = sel.Obj().(*types.Var)
+			owner = derefType(b.info.TypeOf(x.X))
+		}
+	}
+	sameOwner := func(t types.Type) bool {
+		if owner == nil || t == nil {
+			return false
+		}
+		d := derefType(t)
+		return types.Identical(d, owner) || structContains(d, owner, 0)
+	}
+	root := path
+	if i := strings.IndexAny(path, ".["); i > 0 {
+		root = path[:i]
+	}
 	var out []int
 	for _, v := range b.fc.G.V {
 		if v.Node == nil {
@@ -225,13 +260,77 @@ func (b *bctx) fieldDefs(path string) []int {
 		}
 		hit := false
 		for sel := range writeTargets(b.info, v.Node) {
-			if exprStr(sel) == path {
+			ws := exprStr(sel)
+			// a write to the path itself, to a prefix of it (whole sub-struct) or through it
+			if ws == path || strings.HasPrefix(path, ws+".") {
 				hit = true
+			}
+			// the same field of a possibly aliased object
+			if fobj != nil {
+				if s2 := b.info.Selections[sel]; s2 != nil && s2.Obj() == fobj {
+					hit = true
+				}
+			}
+		}
+		if as, ok := v.Node.(*ast.AssignStmt); ok && v.Kind == VStmt && owner != nil {
+			for _, l := range as.Lhs {
+				// *p = T{...} or s = T{...} replaces every field of an object of the owner type
+				if t := b.info.TypeOf(l); t != nil {
+					if _, isPtr := t.Underlying().(*types.Pointer); !isPtr && (types.Identical(t, owner) || structContains(t, owner, 0)) {
+						if _, isIdentDef := ast.Unparen(l).(*ast.Ident); !isIdentDef || as.Tok == token.ASSIGN {
+							hit = true
+						}
+					}
+				}
+			}
+		}
+		if as, ok := v.Node.(*ast.AssignStmt); ok && v.Kind == VStmt {
+			for _, l := range as.Lhs {
+				ls := exprStr(l)
+				if ls == root || ls == "*"+root {
+					hit = true // the root variable (or what it points to) is replaced
+				}
 			}
 		}
 		inspectNoLit(v.Node, func(n ast.Node) bool {
-			if ue, ok := n.(*ast.UnaryExpr); ok && ue.Op == token.AND && exprStr(ue.X) == path {
-				hit = true
+			switch x := n.(type) {
+			case *ast.UnaryExpr:
+				if x.Op == token.AND {
+					xs := exprStr(x.X)
+					if xs == path || strings.HasPrefix(path, xs+".") || xs == root {
+						hit = true
+					}
+				}
+			case *ast.CallExpr:
+				if _, isConv := isConversion(b.info, x); isConv {
+					return true
+				}
+				// a method called on the root object itself (possibly through embedding) may
+				// change its fields; so may a callee that receives the root pointer
+				if sel, ok := ast.Unparen(x.Fun).(*ast.SelectorExpr); ok {
+					if s := b.info.Selections[sel]; s != nil && s.Kind() == types.MethodVal {
+						rs := exprStr(sel.X)
+						if rs == root || strings.HasPrefix(path, rs+".") && rs != path {
+							// receiver is the root or an enclosing sub-struct of the field
+							if recvMayMutate(s) {
+								hit = true
+							}
+						}
+					}
+				}
+				if sel, ok := ast.Unparen(x.Fun).(*ast.SelectorExpr); ok {
+					if s := b.info.Selections[sel]; s != nil && s.Kind() == types.MethodVal && recvMayMutate(s) && sameOwner(b.info.TypeOf(sel.X)) {
+						hit = true // a method on a possibly aliased object of the owner type
+					}
+				}
+				for _, a := range x.Args {
+					as := exprStr(ast.Unparen(a))
+					if t := b.info.TypeOf(a); t != nil {
+						if _, isPtr := t.Underlying().(*types.Pointer); isPtr && (as == root || sameOwner(t)) {
+							hit = true
+						}
+					}
+				}
 			}
 			return true
 		})
@@ -239,7 +338,67 @@ func (b *bctx) fieldDefs(path string) []int {
 			out = append(out, v.ID)
 		}
 	}
+	// closures that mention the root may run at any time
+	for _, lit := range b.fc.Lits() {
+		if !b.fc.IsDeferredLit(lit) && strings.Contains(fullStr(lit), root) {
+			for _, v := range b.fc.G.V {
+				out = append(out, v.ID)
+			}
+			break
+		}
+	}
+	if b.fdCache == nil {
+		b.fdCache = map[string][]int{}
+	}
+	b.fdCache[path] = out
 	return out
+}
+
+func derefType(t types.Type) types.Type {
+	if t == nil {
+		return nil
+	}
+	if p, ok := t.Underlying().(*types.Pointer); ok {
+		return p.Elem()
+	}
+	return t
+}
+
+// structContains: struct type outer contains a value of type inner (by value, transitively).
+func structContains(outer, inner types.Type, depth int) bool {
+	if depth > 4 || outer == nil || inner == nil {
+		return false
+	}
+	st, ok := outer.Underlying().(*types.Struct)
+	if !ok {
+		return false
+	}
+	for i := 0; i < st.NumFields(); i++ {
+		ft := st.Field(i).Type()
+		if types.Identical(ft, inner) || structContains(ft, inner, depth+1) {
+			return true
+		}
+	}
+	return false
+}
+
+// recvMayMutate: the selected method has a pointer receiver (or is reached through a pointer).
+func recvMayMutate(s *types.Selection) bool {
+	fn, ok := s.Obj().(*types.Func)
+	if !ok {
+		return true
+	}
+	sig := fn.Type().(*types.Signature)
+	if sig.Recv() == nil {
+		return true
+	}
+	if _, isPtr := sig.Recv().Type().Underlying().(*types.Pointer); isPtr {
+		return true
+	}
+	if _, isIface := sig.Recv().Type().Underlying().(*types.Interface); isIface {
+		return true
+	}
+	return false
 }
 
 func (b *bctx) edgeDominates(e Edge, u int) bool {
@@ -588,7 +747,8 @@ func (b *bctx) term(e ast.Expr, at int, facts *[]LF) LF {
 		// field of integer type
 		if _, _, ok := pathOf(b.info, x); ok {
 			var a string
-			if !b.fldAsg[exprStr(x)] {
+			b.notePathSel(x)
+			if len(b.fieldDefs(exprStr(x))) == 0 {
 				a = "fld:" + b.pathName(x)
 			} else {
 				base := "fld:" + b.pathName(x)
@@ -620,6 +780,127 @@ func (b *bctx) term(e ast.Expr, at int, facts *[]LF) LF {
 		return fresh("mem:")
 	}
 	return fresh("expr:")
+}
+
+// sliceRoot: the variable a slice expression is rooted in (x, x[a:b], x[a:b][c:]).
+func sliceRoot(info *types.Info, e ast.Expr) types.Object {
+	for {
+		switch x := ast.Unparen(e).(type) {
+		case *ast.Ident:
+			return objOf(info, x)
+		case *ast.SliceExpr:
+			e = x.X
+		default:
+			return nil
+		}
+	}
+}
+
+// freshOnly: every definition of local slice variable o is a fresh allocation (make) or a
+// reslice of itself; parameters and anything else may alias other slices.
+func (b *bctx) freshOnly(o types.Object) bool {
+	if _, isParam := b.params[o]; isParam || !b.declaredHere(o) || b.addrTaken[o] {
+		return false
+	}
+	defs := b.defsOf(o)
+	if len(defs) == 0 {
+		return false
+	}
+	for _, d := range defs {
+		v := b.fc.G.V[d]
+		ok := false
+		switch st := v.Node.(type) {
+		case *ast.AssignStmt:
+			if len(st.Lhs) == len(st.Rhs) {
+				for i, l := range st.Lhs {
+					if objOf(b.info, l) != o {
+						continue
+					}
+					rhs := ast.Unparen(st.Rhs[i])
+					if c, isC := rhs.(*ast.CallExpr); isC {
+						if id, isId := ast.Unparen(c.Fun).(*ast.Ident); isId && id.Name == "make" {
+							ok = true
+						}
+					}
+					if ro := sliceRoot(b.info, rhs); ro == o {
+						ok = true
+					}
+				}
+			}
+		case *ast.ValueSpec:
+			for i, n := range st.Names {
+				if b.info.Defs[n] != o {
+					continue
+				}
+				if len(st.Values) == 0 {
+					ok = true
+				} else if len(st.Values) == len(st.Names) {
+					if c, isC := ast.Unparen(st.Values[i]).(*ast.CallExpr); isC {
+						if id, isId := ast.Unparen(c.Fun).(*ast.Ident); isId && id.Name == "make" {
+							ok = true
+						}
+					}
+				}
+			}
+		}
+		if !ok {
+			return false
+		}
+	}
+	return true
+}
+
+func sliceElem(t types.Type) types.Type {
+	if t == nil {
+		return nil
+	}
+	switch u := t.Underlying().(type) {
+	case *types.Slice:
+		return u.Elem()
+	case *types.Array:
+		return u.Elem()
+	case *types.Pointer:
+		if a, ok := u.Elem().Underlying().(*types.Array); ok {
+			return a.Elem()
+		}
+	}
+	return nil
+}
+
+func arrayOfElem(t, elem types.Type) bool {
+	if t == nil || elem == nil {
+		return false
+	}
+	if a, ok := t.Underlying().(*types.Array); ok {
+		return types.Identical(a.Elem(), elem)
+	}
+	return false
+}
+
+// pureReader: standard functions that only read their slice arguments.
+func pureReader(fn *types.Func) bool {
+	if fn.Pkg() == nil {
+		return false
+	}
+	pkg, name := fn.Pkg().Path(), fn.Name()
+	switch pkg {
+	case "encoding/binary":
+		return strings.HasPrefix(name, "Uint")
+	case "bytes":
+		switch name {
+		case "Equal", "Compare", "IndexByte", "Index", "HasPrefix", "HasSuffix", "Contains", "LastIndexByte":
+			return true
+		}
+	case "net/netip":
+		return strings.HasPrefix(name, "AddrFrom") || name == "AddrPortFrom"
+	case "unsafe":
+		return true
+	case "strings", "strconv", "fmt", "errors", "unique", "time":
+		return true
+	case "crypto/subtle":
+		return name == "ConstantTimeCompare"
+	}
+	return false
 }
 
 // passesSlice: expression a mentions slice variable o other than by reading one of its
@@ -657,6 +938,11 @@ func (b *bctx) contentDefs(o types.Object) []int {
 		// strings are immutable: only assignments to the variable change what o[i] means
 		return b.defsOf(o)
 	}
+	elem := sliceElem(o.Type())
+	sameElem := func(t types.Type) bool {
+		e := sliceElem(t)
+		return e != nil && elem != nil && types.Identical(e, elem)
+	}
 	for _, v := range b.fc.G.V {
 		if v.Node == nil {
 			if v.Kind == VRange {
@@ -673,7 +959,16 @@ func (b *bctx) contentDefs(o types.Object) []int {
 						hit = true
 					}
 				case *ast.IndexExpr:
+					// an element write through o or through any slice that may share its array
 					if objOf(b.info, lx.X) == o {
+						hit = true
+					} else if sameElem(b.info.TypeOf(lx.X)) {
+						if ro := sliceRoot(b.info, lx.X); ro == nil || ro == o || !b.freshOnly(ro) || !b.freshOnly(o) {
+							hit = true
+						}
+					}
+				case *ast.StarExpr:
+					if sameElem(b.info.TypeOf(lx)) || arrayOfElem(b.info.TypeOf(lx), elem) {
 						hit = true
 					}
 				}
@@ -682,14 +977,46 @@ func (b *bctx) contentDefs(o types.Object) []int {
 		inspectNoLit(v.Node, func(n ast.Node) bool {
 			switch c := n.(type) {
 			case *ast.CallExpr:
-				if id, ok := ast.Unparen(c.Fun).(*ast.Ident); ok && (id.Name == "len" || id.Name == "cap") {
-					return false
+				if id, ok := ast.Unparen(c.Fun).(*ast.Ident); ok {
+					if _, isB := b.info.Uses[id].(*types.Builtin); isB {
+						switch id.Name {
+						case "len", "cap":
+							return false
+						case "copy":
+							if len(c.Args) == 2 && (passesSlice(b.info, c.Args[0], o) || sameElem(b.info.TypeOf(c.Args[0]))) {
+								hit = true
+							}
+							return true
+						case "append", "min", "max", "make", "new", "panic", "print", "println", "delete", "clear":
+							return true
+						}
+					}
 				}
 				if _, isConv := isConversion(b.info, c); isConv {
 					return true
 				}
+				if fn := Callee(b.info, c); fn != nil && pureReader(fn) {
+					return true
+				}
 				for _, a := range c.Args {
 					if passesSlice(b.info, a, o) {
+						hit = true
+						continue
+					}
+					// another slice of the same element type may alias o's array, unless both are
+					// rooted in distinct variables that only ever hold fresh allocations
+					if t := b.info.TypeOf(a); t != nil && (sameElem(t) || arrayOfElem(derefType(t), elem)) {
+						if _, isStr := t.Underlying().(*types.Basic); !isStr {
+							if ro := sliceRoot(b.info, a); ro != nil && ro != o && b.freshOnly(ro) && b.freshOnly(o) {
+								continue
+							}
+							hit = true
+						}
+					}
+				}
+				// a method on a value that may hold the slice
+				if sel, ok := ast.Unparen(c.Fun).(*ast.SelectorExpr); ok {
+					if passesSlice(b.info, sel.X, o) {
 						hit = true
 					}
 				}
@@ -716,6 +1043,15 @@ func (b *bctx) contentDefs(o types.Object) []int {
 		}
 	}
 	return out
+}
+
+func (b *bctx) notePathSel(x *ast.SelectorExpr) {
+	if b.pathSel == nil {
+		b.pathSel = map[string]*ast.SelectorExpr{}
+	}
+	if _, ok := b.pathSel[exprStr(x)]; !ok {
+		b.pathSel[exprStr(x)] = x
+	}
 }
 
 // fieldFacts adds the inferred invariant of the selected struct field.
@@ -767,8 +1103,9 @@ func (b *bctx) varTerm(o types.Object, at int, facts *[]LF) LF {
 		b.rangeFacts(a, o.Type(), facts)
 		return lfAtom(a)
 	}
-	// variable of an enclosing function (closure): opaque at this point
-	if !b.declaredHere(o) {
+	// variable of an enclosing function (closure), or one whose address is taken: opaque at
+	// this point (it may change through the alias at any time)
+	if !b.declaredHere(o) || b.addrTaken[o] {
 		a := pointAtom("free:"+key, at)
 		b.rangeFacts(a, o.Type(), facts)
 		return lfAtom(a)
@@ -1220,7 +1557,8 @@ func (b *bctx) sliceLen(e ast.Expr, at int, facts *[]LF) (ln, cp LF) {
 	case *ast.SelectorExpr:
 		var l, c LF
 		if _, _, ok := pathOf(b.info, x); ok {
-			if !b.fldAsg[exprStr(x)] {
+			b.notePathSel(x)
+			if len(b.fieldDefs(exprStr(x))) == 0 {
 				l, c = atoms("fld:" + b.pathName(x))
 			} else {
 				b.atomFld[b.pathName(x)] = exprStr(x)
@@ -1279,7 +1617,7 @@ func (b *bctx) varSlice(o types.Object, at int, facts *[]LF, atoms func(string) 
 	if !isVar || v.IsField() || v.Pkg() == nil || v.Parent() == nil || v.Parent() == v.Pkg().Scope() {
 		return atoms("glob:" + key)
 	}
-	if !b.declaredHere(o) {
+	if !b.declaredHere(o) || b.addrTaken[o] {
 		return atoms(pointAtom("free:"+key, at))
 	}
 	rd := b.reachingDefs(at, o)
